@@ -2,7 +2,16 @@
 
 package harness
 
-import "encoding/json"
+import (
+	"encoding/json"
+
+	"github.com/irai/packet"
+	"github.com/irai/packet/fastlog"
+	arp "github.com/irai/packet/handlers/arp_spoofer"
+	dhcp4 "github.com/irai/packet/handlers/dhcp4_spoofer"
+	dns "github.com/irai/packet/handlers/dns_naming"
+	icmp "github.com/irai/packet/handlers/icmp_spoofer"
+)
 
 func mustJSON(v interface{}) []byte {
 	b, err := json.Marshal(v)
@@ -10,4 +19,27 @@ func mustJSON(v interface{}) []byte {
 		panic(err)
 	}
 	return b
+}
+
+// setLogLevel sets every package logger of the library (process-wide) and returns the function that restores the
+// default. level: 0 default (info), 1 error only (a quiet deployment), 2 debug. The checks that use it run their
+// cases one after the other inside a shard, so the setting belongs to one case at a time. The listed behaviour of a
+// property must not depend on whether a log line is produced.
+func setLogLevel(level int) func() {
+	lv := fastlog.LevelInfo
+	switch level {
+	case 1:
+		lv = fastlog.LevelError
+	case 2:
+		lv = fastlog.LevelDebug
+	}
+	all := []*fastlog.Logger{packet.Logger, arp.Logger, dhcp4.Logger, dns.Logger, dns.LoggerMDNS, icmp.Logger4, icmp.Logger6}
+	for _, l := range all {
+		l.SetLevel(lv)
+	}
+	return func() {
+		for _, l := range all {
+			l.SetLevel(fastlog.LevelInfo)
+		}
+	}
 }
